@@ -58,29 +58,30 @@ RefusalClass(o) == (o.out = "raised" /\ o.op.name \in ValueOps) =>
 Fam(d) == IF d \in StrTypes THEN "str" ELSE IF d \in TupleTypes THEN "tuple" ELSE d
 Scalars == {"int", "int0", "negint", "float_i", "float_f", "true", "false", "str", "text", "s_int", "s_float",
             "s_bool", "s_date", "s_time", "s_datetime", "date", "time", "time_us", "datetime", "datetime_us",
-            "tuple2", "tuple3", "bracketed", "dict"}
+            "tuple2", "tuple3", "bracketed", "dict",
+            "datetime_tz", "time_tz", "inf", "bigint", "s_int_ws", "s_float_exp"}
 Empties == {"none", "empty", "elist", "edict"}
 Lists == {"list_int", "list_str", "list_mixed", "list_s_int", "list_tuple2"}
 Classes == Scalars \cup Empties \cup Lists
 AccYes(f) == CASE f = "str"      -> {"str", "text", "list_str"}
-               [] f = "int"      -> {"int", "int0", "negint", "s_int", "list_int", "list_s_int"}
-               [] f = "float"    -> {"float_i", "float_f", "s_float"}
+               [] f = "int"      -> {"int", "int0", "negint", "s_int", "list_int", "list_s_int", "bigint", "s_int_ws"}
+               [] f = "float"    -> {"float_i", "float_f", "s_float", "inf", "s_float_exp"}
                [] f = "boolean"  -> {"true", "false", "s_bool"}
                [] f = "date"     -> {"date", "s_date"}
-               [] f = "time"     -> {"time", "s_time"}
-               [] f = "datetime" -> {"datetime", "s_datetime"}
+               [] f = "time"     -> {"time", "s_time", "time_tz"}
+               [] f = "datetime" -> {"datetime", "s_datetime", "datetime_tz"}
                [] f = "tuple"    -> {}
                [] OTHER -> {}
 AccNo(f) == IF f \in {"str", "none"} THEN {} ELSE {"str", "text", "list_str", "list_mixed"}
 
 ListLen(c) == IF c \in Lists \cup {"bracketed"} THEN 2 ELSE 1
-Infer(c) == CASE c \in {"int", "int0", "negint", "list_int", "list_mixed"} -> "int"
-              [] c \in {"float_i", "float_f"} -> "float"
+Infer(c) == CASE c \in {"int", "int0", "negint", "list_int", "list_mixed", "bigint"} -> "int"
+              [] c \in {"float_i", "float_f", "inf"} -> "float"
               [] c \in {"true", "false"} -> "boolean"
               [] c = "text" -> "text"
               [] c = "date" -> "date"
-              [] c \in {"time", "time_us"} -> "time"
-              [] c \in {"datetime", "datetime_us"} -> "datetime"
+              [] c \in {"time", "time_us", "time_tz"} -> "time"
+              [] c \in {"datetime", "datetime_us", "datetime_tz"} -> "datetime"
               [] OTHER -> "string"
 Outcomes(d, c) == IF c \in AccYes(Fam(d)) THEN {"ok"} ELSE IF c \in AccNo(Fam(d)) THEN {"raised"} ELSE {"ok", "raised"}
 Abs(d, n) == [d |-> d, n |-> n]
